@@ -160,10 +160,17 @@ def run_model(prop, lines, exe=None):
 
 
 def load_findings(prop):
+    """known_findings.json (merged, authoritative) plus per-property files in known_findings.d/."""
+    out = []
     path = os.path.join(VERIF, 'known_findings.json')
-    if not os.path.exists(path):
-        return []
-    return [f for f in json.load(open(path))['findings'] if f['property'] == prop]
+    if os.path.exists(path):
+        out += json.load(open(path))['findings']
+    d = os.path.join(VERIF, 'known_findings.d')
+    if os.path.isdir(d):
+        for nm in sorted(os.listdir(d)):
+            if nm.endswith('.json'):
+                out += json.load(open(os.path.join(d, nm)))['findings']
+    return [f for f in out if f['property'] == prop]
 
 
 class Ctx:
